@@ -30,7 +30,7 @@ def c06(prop, tier, res, replay=None):
 
 
 def c16(prop, tier, res, replay=None):
-    return pure.check_cases(prop, tier, res, [EGRESS], [
+    return pure.check_cases(prop, tier, res, [EGRESS, RELOAD_SWEEPS], SWEEP_ASSUME + [
         "URL parsing (net/url) and literal-address recognition (netip.ParseAddr) are the stdlib's: the model receives scheme/hostname/literal as Go parsed them",
         "DNS rebinding between check and dial is outside the property (\"at the time of the check\"); redirect scenarios run against loopback httptest servers through a custom dialer"], replay)
 
@@ -68,7 +68,7 @@ def c09(prop, tier, res, replay=None):
 
 
 def c17(prop, tier, res, replay=None):
-    return pure.check_cases(prop, tier, res, [SIGNING, AUTH], AUTH_ASSUME + [
+    return pure.check_cases(prop, tier, res, [SIGNING, AUTH, RELOAD_SWEEPS], AUTH_ASSUME + SWEEP_ASSUME + [
         "outbound: real HTTPDeliverer.Deliver against an httptest target capturing headers and body, clock on every window boundary +-1 ns / +-1 s"], replay)
 
 
@@ -114,6 +114,12 @@ def c07(prop, tier, res, replay=None):
 RELOAD = dict(sub="reload", mode="reload", family="reload", shards=q(4, 16),
               args=lambda tier, sd, sh: ["-seed", sd * 1000 + sh, "-cases", 40 if tier == "quick" else 250, "-files", 36 if tier == "quick" else 200, "-crash"],
               key_fields=["k", "case", "variant", "fail", "point"], class_clauses={"request-straddles-reload"})
+
+
+RELOAD_SWEEPS = dict(sub="reload", mode="reload", family="reloadsweep", shards=lambda tier: 1,
+                     args=lambda tier, sd, sh: ["-seed", sd, "-cases", 0, "-files", 0],
+                     key_fields=["k", "case", "fail", "restartEdit"])
+SWEEP_ASSUME = ["reload sweeps: every setting the dispatcher is built from (targets, retry, timeout, concurrency, signing secrets and their windows, egress policy) is changed alone in a fixed configuration and the reload must be refused, because the running dispatcher cannot take it over; a reload reported as applied would leave the dispatcher signing / checking by a configuration that is no longer the running one"]
 
 
 def c18(prop, tier, res, replay=None):
